@@ -3,9 +3,17 @@
     [threshold] is read once from ZOEKT_RE2_THRESHOLD_BYTES (strconv.ParseInt; unset or unparsable = -1 = disabled).
     Compile builds the RE2 program only when threshold >= 0; FindAllIndex uses RE2 iff it was built and
     len(input) >= threshold, the grafana engine otherwise.  The engines themselves (a Go package and a WebAssembly
-    build of RE2) are external: they are parameters of the model. *)
-From Coq Require Import List ZArith Bool.
-From ZV Require Import Lib.Base.
+    build of RE2) are external: they are parameters of the model.
+
+    Two layers:
+    * the hand model ([parse_threshold], [re2_compiled], [use_re2], [find_all]): the specification of the dispatch;
+    * the source-level dispatch ([find_all_src]): an interpreter of what translator/hybridre2 reads from the Go source
+      on every run (Generated/HybridRe2.v): the conditions of Compile and useRE2 as Z expressions and the body of
+      Regexp.FindAllIndex as a decision tree whose leaves record which engine is called and whether it receives the
+      method's own parameters or something derived from them (pre-processing of the input on a branch).
+    Proofs/HybridRe.v shows that the second equals the first (this fails when a branch pre-processes its input). *)
+From Coq Require Import String List ZArith Bool.
+From ZV Require Import Lib.Base Model.HybridReSyntax Generated.HybridRe2.
 Import ListNotations.
 Open Scope Z_scope.
 
@@ -14,19 +22,114 @@ Definition parse_threshold (env : option Z) : Z := match env with Some n => n | 
 Definition re2_compiled (thr : Z) : bool := 0 <=? thr.
 Definition use_re2 (thr : Z) (len : nat) : bool := (0 <=? thr) && (thr <=? Z.of_nat len).
 
-Section Dispatch.
-  Variables R T O : Type.               (* regexps, inputs, results *)
-  Variable len : T -> nat.
-  Variables grafana re2 : R -> T -> O.  (* the two engines' FindAllIndex *)
+(** the same with the constants / conditions read from the source *)
+Definition parse_threshold_src (env : option Z) : Z := match env with Some n => n | None => disabled_src end.
 
-  Definition find_all (thr : Z) (r : R) (b : T) : O :=
-    if re2_compiled thr && use_re2 thr (len b) then re2 r b else grafana r b.
+Section Dispatch.
+  Variables R T L O : Type.             (* regexps, inputs, match limits (the n of FindAllIndex), results *)
+  Variable len : T -> nat.
+  Variables grafana re2 : R -> T -> L -> O.  (* the two engines' FindAllIndex *)
+
+  (** hand model: both engines get the SAME input and limit, whatever the setting *)
+  Definition find_all (thr : Z) (r : R) (b : T) (n : L) : O :=
+    if re2_compiled thr && use_re2 thr (len b) then re2 r b n else grafana r b n.
+
+  (** source-level dispatch.  What a branch does to its arguments before the engine sees them is unknown to the model:
+      [xf] / [xl] stand for ANY transformation of the input / limit, [opq] for the value of the uninterpreted conditions. *)
+  Variable xf : T -> T.
+  Variable xl : L -> L.
+  Variable opq : nat -> T -> bool.
+
+  Fixpoint eval_cond (compiled used : bool) (b : T) (c : dcond) : bool :=
+    match c with
+    | CTrue => true
+    | CFalse => false
+    | CCompiled => compiled
+    | CUsed => used
+    | CNot c1 => negb (eval_cond compiled used b c1)
+    | CAnd c1 c2 => eval_cond compiled used b c1 && eval_cond compiled used b c2
+    | COr c1 c2 => eval_cond compiled used b c1 || eval_cond compiled used b c2
+    | COpaque k => opq k b
+    end.
+
+  Fixpoint run_tree (t : dtree) (compiled used : bool) (b : T) : option (engine * argsrc * argsrc) :=
+    match t with
+    | DRet e i l => Some (e, i, l)
+    | DIf c t1 t2 => if eval_cond compiled used b c then run_tree t1 compiled used b else run_tree t2 compiled used b
+    | DOther => None
+    end.
+
+  Definition apply_leaf (lf : engine * argsrc * argsrc) (r : R) (b : T) (n : L) : O :=
+    let '(e, i, l) := lf in
+    let b' := match i with ArgParam => b | ArgDerived => xf b end in
+    let n' := match l with ArgParam => n | ArgDerived => xl n end in
+    match e with Grafana => grafana r b' n' | RE2 => re2 r b' n' end.
+
+  (** None: the function leaves by something that is not an engine call *)
+  Definition find_all_src (thr : Z) (r : R) (b : T) (n : L) : option O :=
+    option_map (fun lf => apply_leaf lf r b n)
+               (run_tree find_all_index_tree (re2_compiled_src thr) (use_re2_src thr (Z.of_nat (len b))) b).
 End Dispatch.
 
-(** ---- runner: the dispatch decisions observed in the implementation *)
+(** ---- the checker evaluated (vm_compute) on the generated tree: on every path that is possible for a given
+    (compiled, used) — taking BOTH sides of an uninterpreted condition — the leaf calls the wanted engine on the
+    untouched parameters *)
+Definition cond3 (compiled used : bool) : dcond -> option bool :=
+  fix go (c : dcond) : option bool :=
+    match c with
+    | CTrue => Some true
+    | CFalse => Some false
+    | CCompiled => Some compiled
+    | CUsed => Some used
+    | CNot c1 => option_map negb (go c1)
+    | CAnd c1 c2 => match go c1, go c2 with
+                    | Some false, _ | _, Some false => Some false
+                    | Some true, Some true => Some true
+                    | _, _ => None
+                    end
+    | COr c1 c2 => match go c1, go c2 with
+                   | Some true, _ | _, Some true => Some true
+                   | Some false, Some false => Some false
+                   | _, _ => None
+                   end
+    | COpaque _ => None
+    end.
+
+Definition engine_eqb (a b : engine) : bool :=
+  match a, b with Grafana, Grafana | RE2, RE2 => true | _, _ => false end.
+Definition is_param (a : argsrc) : bool := match a with ArgParam => true | ArgDerived => false end.
+
+Fixpoint leaves_ok (want : engine) (compiled used : bool) (t : dtree) : bool :=
+  match t with
+  | DRet e i l => engine_eqb e want && is_param i && is_param l
+  | DOther => false
+  | DIf c t1 t2 => match cond3 compiled used c with
+                   | Some true => leaves_ok want compiled used t1
+                   | Some false => leaves_ok want compiled used t2
+                   | None => leaves_ok want compiled used t1 && leaves_ok want compiled used t2
+                   end
+  end.
+
+Definition want_engine (compiled used : bool) : engine := if compiled && used then RE2 else Grafana.
+
+(** (compiled, used) = (false, true) cannot happen (used implies compiled), so it is not required of the tree *)
+Definition tree_ok (t : dtree) : bool :=
+  leaves_ok (want_engine false false) false false t &&
+  leaves_ok (want_engine true false) true false t &&
+  leaves_ok (want_engine true true) true true t.
+
+(** the library functions the model's two engine parameters stand for *)
+Definition expected_compile_callees : list String.string :=
+  ["Grafana:github.com/grafana/regexp.Compile:ArgParam"; "RE2:github.com/wasilibs/go-re2.Compile:ArgParam"]%string.
+Definition expected_engine_packages : list String.string :=
+  ["Grafana:github.com/grafana/regexp"; "RE2:github.com/wasilibs/go-re2"]%string.
+
+(** ---- runner: the dispatch decisions observed in the implementation, against the hand model AND the generated conditions *)
 Definition c28case := (option Z * nat * bool * bool)%type.   (* env value, input length, re.re2 != nil, useRE2(len) *)
 Definition c28_ok (c : c28case) : bool :=
   let '(env, n, compiled, used) := c in
   let thr := parse_threshold env in
-  Bool.eqb (re2_compiled thr) compiled && Bool.eqb (use_re2 thr n) used.
+  let thr' := parse_threshold_src env in
+  Bool.eqb (re2_compiled thr) compiled && Bool.eqb (use_re2 thr n) used &&
+  Bool.eqb (re2_compiled_src thr') compiled && Bool.eqb (use_re2_src thr' (Z.of_nat n)) used.
 Definition c28_mismatches (l : list c28case) : list N := bad_indexes c28_ok l.
